@@ -19,6 +19,7 @@ import (
 	"encoding/json"
 	"flag"
 	"fmt"
+	"math"
 	"math/big"
 	"math/rand"
 	"os"
@@ -56,6 +57,7 @@ type Case struct {
 	Src    map[string]string `json:"src,omitempty"`
 	Parts  []*Case           `json:"parts,omitempty"`
 	G      string            `json:"g,omitempty"`
+	Rebuilt *bool            `json:"rebuilt,omitempty"`
 }
 
 type Exported struct {
@@ -72,7 +74,12 @@ func (c *Case) sig() string {
 		return "field:" + c.F + ":" + c.Op
 	case "body":
 		return fmt.Sprintf("body:%s:%v", c.E, c.Rehash != nil && *c.Rehash)
-	case "time", "key", "free":
+	case "time":
+		if c.Rebuilt != nil && *c.Rebuilt {
+			return "time:" + c.C + ":rebuilt"
+		}
+		return "time:" + c.C
+	case "key", "free":
 		return c.T + ":" + c.C
 	case "struct":
 		return "struct:" + c.S
@@ -925,8 +932,41 @@ func (tc *tamperCtx) applyOne(cur *built, c *Case, first bool) {
 			t = o.Now + 121 // MaxFutureBlockOffset is 2 min
 		case "farabove":
 			t = o.Now + 122 + int64(tc.rnd.Intn(1000000))
+		case "maxint":
+			t = math.MaxInt64 - int64(tc.rnd.Intn(200))
+		case "minint":
+			t = math.MinInt64 + 1 + int64(tc.rnd.Intn(200))
 		default:
 			panic("unknown time case " + c.C)
+		}
+		if c.Rebuilt != nil && *c.Rebuilt {
+			// the proposer builds the block honestly FOR that timestamp: every derived field comes from the node's own functions
+			// (VerifCraftBlock), only the window is wrong
+			if !first {
+				panic("a rebuilt block must be the first part of a case")
+			}
+			n := w.Boot(o.Proposer, sim.CopyDB(o.Snap), nil)
+			if n.BootErr != nil {
+				panic(n.BootErr)
+			}
+			var nb *types.Block
+			var err error
+			func() {
+				defer func() {
+					if r := recover(); r != nil {
+						err = fmt.Errorf("panic: %v", r)
+					}
+				}()
+				nb, err = n.Chain.VerifCraftBlock(b.Body.Transactions, t)
+			}()
+			wipe(n)
+			if err != nil || nb == nil {
+				cur.na = "the block cannot be built for this timestamp"
+				return
+			}
+			cur.blk = sim.Decode(sim.Encode(nb))
+			cur.base = nil
+			return
 		}
 		b.Header.ProposedHeader.Time = t
 		cur.base = nil
